@@ -43,14 +43,13 @@ for pid in ALL:
 
 manifest = {
     'version': 1,
-    'setup_cmd': ('mkdir -p /verif/.deps && /venv/bin/pip install -q --no-index --find-links '
-                  '/opt/veriftools/wheels --target /verif/.deps icontract'),
+    'setup_cmd': 'mkdir -p /verif/evidence /verif/replays && /venv/bin/python -c "import sys; assert sys.version_info >= (3, 12)"',
     'hooks': {
         'guard': 'FILE_BUILDER_VERIF',
         'enable': ('no source hooks in /repo: with FILE_BUILDER_VERIF=1 the harness process imports '
                    'file_builder from the current working tree of /repo (FB_REPO overrides) and installs '
-                   'its monitors in-process (sys.addaudithook, sys.monitoring, threading shim, icontract '
-                   'wrappers); with the guard unset nothing is installed'),
+                   'its monitors in-process (sys.addaudithook, sys.monitoring, threading shim, gzip proxy); '
+                   'with the guard unset nothing is installed'),
         'baseline_off_cmd': ('cd /repo && /venv/bin/python -m pytest -ra -q -p no:cacheprovider '
                              '--timeout=900 --continue-on-collection-errors'),
         'source_commits': [],
@@ -63,7 +62,7 @@ manifest = {
         'kind_free_text': ('runtime monitoring: program/history generator, reference model of the documented '
                            'semantics, lock-step execution of the real library, audit-hook FS event monitor with '
                            'fault injection, crash-point enumeration, baton scheduler on sys.monitoring LINE '
-                           'events, icontract contracts, triage against known_findings.json'),
+                           'events, strace cross-check of the audit hook, triage against known_findings.json'),
     }],
     'checks': checks,
     'not_applicable': na,
